@@ -2,6 +2,8 @@ import QbiceVerif.Lemmas.CancelAll
 import QbiceVerif.Lemmas.CancelBatchStep
 import QbiceVerif.Lemmas.CancelPhaseStep
 import QbiceVerif.Lemmas.CancelPanic
+import QbiceVerif.Lemmas.CancelProgress
+import QbiceVerif.Lemmas.CancelSim
 
 /-!
 # C05 — cancellation or an executor panic never corrupts the engine
@@ -20,6 +22,10 @@ task `t` is dropped at its current await point) and `panic t` (its executor pani
 * `panic_reaches_caller`   — after an executor panic the task ends `panicked` (or `cancelled` if the caller
   drops it meanwhile), never `returned`; its resources are covered by `cancel_restores`.
 * `no_stall_partial`       — no waiter is stranded by a cancellation or a panic.
+* `no_stall`               — the full clause under the static-rank assumption: deadlock-freedom, an explicit variant that
+  decreases on every completing event, every maximal completing run ends quiescent (Lemmas/CancelProgress.lean).
+* `cancel_then_sound`      — a run with any cancellations / panics that ends quiescent has the publication log, the
+  store and the tables of a run without faults that consists of complete sequential requests (Lemmas/CancelSim.lean).
 -/
 
 namespace QbiceVerif.CancelLts
@@ -374,6 +380,43 @@ theorem unwind_wakes_waiters {s s' : State} {t w : Tid} {T W : Task} {f : Frame}
 example : (run (init Cfg.fixed) [.spawn 0 3 false none, .lock 0, .spawn 1 3 false none, .waitC 1, .cancel 0, .wake 1, .lock 1]).map
     (fun s => ((s.tasks 0).isNone, (s.comp 3).map (·.owner))) = some (true, some 1) := by decide
 
+/-! ### cancel_then_sound: what follows a fault is what follows a fault-free history
+
+`erase_faults` (Lemmas/CancelSim.lean) is a forward simulation: the faulty run is followed event by event; only `submit`
+(the write phase of a guarded block completed), `sBump` and `sWrite` change the store (`step_store`; `cancel`, `panic`,
+`resume` never do), and each of them is answered on the fault-free side by one complete request (a single-frame query
+that publishes the same node; a session).  The phase lock (`submit_no_open`, needs repair `f40`) makes the session events
+contiguous, so the fault-free side never needs two requests at once.  Together with `cancel_restores` (`Q`: empty
+tables, nothing half-published, every batch submitted) the faulty run and the fault-free run end in states that agree
+on everything the model has beyond task ids and batch ids.  So whatever holds after every fault-free history of
+complete requests — C01's `core_history_sound` is such a statement — holds after the faulty one for the same
+publication log.  Not covered (the model has no values and no dependency relation): that the log, read as a C01
+history, asks for every node after its callees — in the faulty run a frame's guarded block runs only after the frames
+above it were popped, but the model does not record which keys a frame read. -/
+
+theorem cancel_then_sound {es : List Ev} {s : State} (hrun : run (init Cfg.fixed) es = some s) (hq : Quiescent s) :
+    Q s ∧ ∃ es' s', FaultFree es' ∧ run (init Cfg.fixed) es' = some s' ∧ Quiescent s' ∧ Q s' ∧
+      pubLog (init Cfg.fixed) es' = pubLog (init Cfg.fixed) es ∧
+      s'.version = s.version ∧ s'.epoch = s.epoch ∧
+      (∀ k, s'.comp k = s.comp k) ∧ (∀ k, s'.bpl k = s.bpl k) ∧ (∀ k, s'.partialW k = s.partialW k) ∧
+      s'.readers = s.readers ∧ s'.writer = s.writer ∧ s'.aborted = s.aborted := by
+  have hQ := cancel_restores (reachable_of_run .init hrun) hq
+  obtain ⟨es', s', hf, hr', hq', hl, hv, he⟩ := erase_faults hrun hq
+  have hQ' := cancel_restores (reachable_of_run .init hr') hq'
+  refine ⟨hQ, es', s', hf, hr', hq', hQ', hl, hv, he, ?_, ?_, ?_, ?_, ?_, ?_⟩
+  · intro k; rw [hQ'.noComputing k, hQ.noComputing k]
+  · intro k; rw [hQ'.noBackwardProjection k, hQ.noBackwardProjection k]
+  · intro k; rw [hQ'.noHalfPublished k, hQ.noHalfPublished k]
+  · rw [hQ'.phaseLockFree.1, hQ.phaseLockFree.1]
+  · rw [hQ'.phaseLockFree.2, hQ.phaseLockFree.2]
+  · rw [hQ'.noBatchDropped, hQ.noBatchDropped]
+
+/-- non-vacuity: a nested request cut in the middle of the outer frame, after the inner publication completed -/
+example : (run (init Cfg.fixed) [.spawn 0 3 false none, .lock 0, .call 0 1, .lock 0, .gEnter 0, .batchNew 0, .submit 0, .finish 0,
+      .hit 0, .cancel 0]).map (fun s => ((s.tasks 0).isNone, s.version 1, s.version 3)) = some (true, 1, 0) := by decide
+example : pubLog (init Cfg.fixed) [.spawn 0 3 false none, .lock 0, .call 0 1, .lock 0, .gEnter 0, .batchNew 0, .submit 0, .finish 0,
+      .hit 0, .cancel 0] = [.node 1] := by decide
+
 /-! ### the undo of a registration keeps the order of the others
 
 `register_callee` records the callees of a computing node in the order its executor reads them (`regs`, newest
@@ -474,11 +517,36 @@ theorem cancel_always_enabled {s : State} {t : Tid} {T : Task} (hT : s.tasks t =
     (step s (.cancel t)).isSome = true := by
   simp [step, hT, hd]
 
-/-- The full statement of the property's `no_stall` clause, not proved here: from every reachable state every
-    maximal run ends with all remaining tasks returned.  Missing: the waits-for relation between live tasks is
-    acyclic (static rank of the keys, C02) and a variant function that bounds the length of every run. -/
+/-! ### no stall, in full (Lemmas/CancelProgress.lean)
+
+The LTS has no program: a task may start new work (`call`, `lock`, `write`, `spawn`, …) for ever, so "every maximal run
+is finite" is false for it, and with unrestricted `call`s two tasks can wait for each other (`cyclic_calls_can_deadlock`).
+Under the static-rank assumption (`ReachableR`: a callee's key is smaller than its caller's — acyclic programs, C02) the
+clause holds in the form that does not depend on the program:
+* the explicit variant `variant n s` strictly decreases on **every** completing event (`completing_decreases`), so every
+  run of completing events has at most `variant n s` steps (`completing_run_bounded`);
+* a state in which a task is left always has an enabled completing event (`deadlock_free`);
+* hence every maximal run of completing events ends with no task left (`maximal_completing_run_quiescent`), such a run
+  exists from every reachable state (`all_complete`), and the state it ends in satisfies `Q` (`no_stall`). -/
+
+/-- The `no_stall` clause of the property: from every state reachable (with rank-respecting calls) in the repaired
+    configuration — whatever was cancelled or panicked before — the remaining work can be completed without any further
+    fault, and the quiescent invariant holds afterwards. -/
 def C05_full_statement : Prop :=
-  ∀ (s : State), Reachable Cfg.fixed s →
-    ∃ (es : List Ev) (s' : State), (∀ e ∈ es, ∀ t, e ≠ .cancel t ∧ e ≠ .panic t) ∧ run s es = some s' ∧ Quiescent s'
+  ∀ (s : State), ReachableR Cfg.fixed s →
+    ∃ (es : List Ev) (s' : State), (∀ e ∈ es, ∀ t, e ≠ .cancel t ∧ e ≠ .panic t) ∧ run s es = some s' ∧ Quiescent s' ∧ Q s'
+
+theorem no_stall : C05_full_statement := by
+  intro s hr
+  obtain ⟨es, s', hall, hrun, hq⟩ := all_complete hr
+  have hr' := (completing_run_reachableR hr hall hrun).reachable
+  exact ⟨es, s', fun e he => completing_not_fault (hall e he), hrun, hq, cancel_restores hr' hq⟩
+
+/-- without the rank assumption the model has cyclic waits: task 0 holds key 1 and waits for key 2, task 1 holds key 2
+    and waits for key 1; neither can be woken (in the engine `exit_scc` answers this with `CyclicError`; C06) -/
+theorem cyclic_calls_can_deadlock :
+    (run (init Cfg.fixed) [.spawn 0 1 false none, .lock 0, .call 0 2, .spawn 1 2 false none, .lock 1, .call 1 1,
+        .waitC 0, .waitC 1]).map (fun s => ((step s (.wake 0)).isSome, (step s (.wake 1)).isSome, (step s (.hit 0)).isSome,
+          (step s (.hit 1)).isSome)) = some (false, false, false, false) := by decide
 
 end QbiceVerif.CancelLts
